@@ -36,7 +36,7 @@ CASE_TIMEOUT = 200.0
 
 
 def gen_cases(seed, tier):
-    n = 40 if tier == "quick" else 400
+    n = 40 if tier == "quick" else 1500
     cases = [{"cls": "faults", "seed": seed * 1000 + i, "_w": 3} for i in range(n)]
     cases += [{"cls": "twin", "seed": seed * 1000 + i, "pairs": 60 if tier == "quick" else 150, "_w": 2} for i in range(n)]
     cases += [{"cls": "inplace", "seed": seed * 1000 + i, "_w": 1} for i in range(n)]
